@@ -297,3 +297,83 @@ def big(ctx: Ctx):
     tables.validate(ctx, "EcdsaBig", rows, invariants=["RowsOK"], result_keys=(), tag=lambda r: "ecdsabig",
                     describe=lambda r: f"h={bytes(r['h']).hex()} d={bytes(r['dkey']).hex()} v={r['v']} "
                                        f"rec={r['rec']} oth={r['oth']} pub={r['pub']}")
+
+
+def recover_big_rows(ctx: Ctx):
+    """ecdsa_raw_recover of the real module on the boundary grid of the property, with witnesses and the
+    defining equation evaluated on concrete points."""
+    from .constants import limbs
+    from py_ecc.secp256k1 import secp256k1 as m
+    rng = random.Random(ctx.seed + 47)
+    quick = ctx.tier == "quick"
+    P, N = m.P, m.N
+    ids = {}
+
+    def pid(pt):
+        pt = (int(pt[0]), int(pt[1]))
+        if pt not in ids:
+            ids[pt] = len(ids) + 1
+        return ids[pt]
+
+    def onx():
+        while True:
+            x = rng.randrange(1, P)
+            g = (x ** 3 + 7) % P
+            if pow(g, (P - 1) // 2, P) == 1:
+                return x
+
+    def offx():
+        while True:
+            x = rng.randrange(1, P)
+            g = (x ** 3 + 7) % P
+            if pow(g, (P - 1) // 2, P) == P - 1:
+                return x
+    rs = [0, 1, 2, N - 1, N, N + 1, P - 1, onx(), onx(), offx(), offx()] + [rng.randrange(P) for _ in range(2 if quick else 10)]
+    ss = [0, 1, (N - 1) // 2, (N + 1) // 2, N - 1, N, N + 1, 2 * N, rng.randrange(1, N), rng.getrandbits(300)]
+    hs = [b"\x00" * 32, b"\xff" * 32, N.to_bytes(32, "big"), rng.randbytes(32), b"", rng.randbytes(64)]
+    vs = [0, 1, 26, 27, 28, 29, 35, 36]
+    combos = [(v, r, s, h) for v in vs for r in rs for s in ss for h in hs]
+    rng.shuffle(combos)
+    keep = [c for c in combos if c[0] in (27, 28)][:120 if quick else 900] + [c for c in combos if c[0] not in (27, 28)][:30 if quick else 200]
+    # real signatures (also high-s variants)
+    for _ in range(6 if quick else 40):
+        d = rng.randrange(1, N)
+        h = rng.randbytes(32)
+        v, r, s = m.ecdsa_raw_sign(h, d.to_bytes(32, "big"))
+        keep += [(v, r, s, h), (55 - v, r, s, h), (v, r, N - s, h), (55 - v, r, N - s, h)]
+    rows = []
+    for (v, r, s, h) in keep:
+        g = (r ** 3 + 7) % P
+        w = pow(g, (P + 1) // 4, P)
+        sq = 1 if w * w % P == g else 0
+        if not sq:
+            w = pow((-g) % P, (P + 1) // 4, P)
+        row = {"h": list(h), "v": v, "r": limbs(r), "s": limbs(s), "w": limbs(w), "sq": sq, "y": [], "res": 0,
+               "lhs": 0, "rhs": 0, "rn": [], "sn": [], "zn": []}
+        try:
+            try:
+                Q = m.ecdsa_raw_recover(h, (v, r, s))
+                row["res"] = 1
+            except ValueError:
+                Q = None
+            if Q is not None and sq and v in (27, 28):
+                y = w if (w % 2 == (0 if v == 27 else 1)) else P - w
+                z = m.bytes_to_int(h)
+                rn, sn, zn = r % N, s % N, (N - z % N) % N
+                row.update({"y": limbs(y), "rn": limbs(rn), "sn": limbs(sn), "zn": limbs(zn),
+                            "lhs": pid(m.multiply(Q, rn)),
+                            "rhs": pid(m.add(m.multiply((r, y), sn), m.multiply(m.G, zn)))})
+        except Exception as e:  # noqa: BLE001
+            row["exc"] = f"EXC:{type(e).__name__}:{e}"[:120]
+        rows.append(row)
+    return rows
+
+
+def recover_big(ctx: Ctx):
+    rows = recover_big_rows(ctx)
+    ctx.log(f"recover full size: {len(rows)} calls of ecdsa_raw_recover ({sum(r['res'] for r in rows)} returned a point)")
+    ctx.add_cov("full_size_recover_rows", len(rows))
+    ctx.add_cov("full_size_recover_accepted", sum(r["res"] for r in rows))
+    tables.validate(ctx, "RecoverBig", rows, invariants=["RowsOK"], result_keys=(), tag=lambda r: "recoverbig",
+                    describe=lambda r: f"h={bytes(r['h']).hex()[:40]} v={r['v']} r={r['r'][:3]}.. s={r['s'][:3]}.. res={r['res']} "
+                                       f"lhs={r['lhs']} rhs={r['rhs']} sq={r['sq']}")
